@@ -350,6 +350,8 @@ def gen_group(rng, kind, nnot):
     ranges = []
     for _ in range(n):
         a = GEN_EP[kind](rng)
+        if ranges and rng.random() < 0.3:
+            a = list(ranges[-1][0])          # same start as the previous range, another stop
         r = rng.random()
         if r < 0.15:
             b = list(a)
@@ -360,8 +362,12 @@ def gen_group(rng, kind, nnot):
     for a, b in ranges:
         probes += neighbours(kind, a) + neighbours(kind, b)
     probes += [GEN_EP[kind](rng) for _ in range(3)]
-    strings = [r_interval(rng, kind, ranges) for _ in range(nnot)]
-    cases = [dict(kind=kind, input=r_seq(rng, kind, ranges), equiv=strings, probes=probes)]
+    def shuffled():
+        rs = list(ranges)
+        rng.shuffle(rs)                      # the order in which the ranges are written must not matter
+        return rs
+    strings = [r_interval(rng, kind, shuffled()) for _ in range(nnot)]
+    cases = [dict(kind=kind, input=r_seq(rng, kind, shuffled()), equiv=strings, probes=probes)]
     for s in strings:
         cases.append(dict(kind=kind, input=s, probes=probes[:4]))
     return cases
